@@ -12,7 +12,7 @@
 (*   ConvDone       counts of parts on the three sides must agree          *)
 (*   ConvertFailed  conversion or writing returned an error: allowed       *)
 (*   InputRejected  gimli's reader does not accept the input: not covered  *)
-(*   Abnormal       panic / abort / unreadable output: no action           *)
+(*   Abnormal       panic / abort / unreadable output: never explained     *)
 (*                                                                         *)
 (* Events with a field `exp` come from MCConvertCfi: `exp.unwind` is the   *)
 (* unwind meaning the specification computed for the generated input; the  *)
@@ -31,25 +31,40 @@ Ok3(M(_), r) == LET a == M(r.min)
                     b == M(r.mout)
                     c == M(r.mout2) IN b = a /\ c = b
 
-ConvUnit == IsEv("ConvUnit") /\ LET r == Rec[l] IN Again(r) /\ Ok3(UnitMeaning, r)
-ConvEntry == IsEv("ConvEntry") /\ LET r == Rec[l] IN Again(r) /\ Ok3(EntryMeaning, r)
-ConvLineHeader == IsEv("ConvLineHeader") /\ LET r == Rec[l] IN Again(r) /\ Ok3(LineHeaderMeaning, r)
-ConvLineSeq == IsEv("ConvLineSeq") /\ LET r == Rec[l] IN Again(r) /\ Ok3(SeqMeaning, r)
-ConvFde == IsEv("ConvFde") /\ LET r == Rec[l]
-                                  a == FdeMeaning(r.min)
-                                  b == FdeMeaning(r.mout)
-                                  c == FdeMeaning(r.mout2) IN
+ConvUnit(r)       == Again(r) /\ Ok3(UnitMeaning, r)
+ConvEntry(r)      == Again(r) /\ Ok3(EntryMeaning, r)
+ConvLineHeader(r) == Again(r) /\ Ok3(LineHeaderMeaning, r)
+ConvLineSeq(r)    == Again(r) /\ Ok3(SeqMeaning, r)
+ConvFde(r) == LET a == FdeMeaning(r.min)
+                  b == FdeMeaning(r.mout)
+                  c == FdeMeaning(r.mout2) IN
     /\ Again(r)
     /\ b = a /\ c = b
     /\ ("exp" \in DOMAIN r) => (b.unwind = r.exp.unwind /\ b.fin = "end")
-ConvDone == IsEv("ConvDone") /\ LET r == Rec[l] IN
-    Again(r) /\ r.nout = r.nin /\ r.nout2 = r.nout
-ConvertFailed == IsEv("ConvertFailed")
-InputRejected == IsEv("InputRejected")
+ConvDone(r) == Again(r) /\ r.nout = r.nin /\ r.nout2 = r.nout
 
+(* An event is explained iff the relation of Convert.tla holds for it.  Failing *)
+(* is allowed; an abnormal end (panic, abort, unreadable output) or an unknown  *)
+(* event kind is never explained.                                               *)
+Explained(r) ==
+    CASE r.ev = "ConvUnit"       -> ConvUnit(r)
+      [] r.ev = "ConvEntry"      -> ConvEntry(r)
+      [] r.ev = "ConvLineHeader" -> ConvLineHeader(r)
+      [] r.ev = "ConvLineSeq"    -> ConvLineSeq(r)
+      [] r.ev = "ConvFde"        -> ConvFde(r)
+      [] r.ev = "ConvDone"       -> ConvDone(r)
+      [] r.ev = "ConvertFailed"  -> TRUE
+      [] r.ev = "InputRejected"  -> TRUE
+      [] OTHER                   -> FALSE
+
+(* One step per event.  An unexplained event is REJECTED: TLC prints its index  *)
+(* and goes on, so that one run names every rejected event of the trace (the    *)
+(* driver turns each into a violation); the trace is accepted iff nothing was   *)
+(* printed.                                                                     *)
 Init == l = 1
-Next == ConvUnit \/ ConvEntry \/ ConvLineHeader \/ ConvLineSeq \/ ConvFde \/ ConvDone
-        \/ ConvertFailed \/ InputRejected
+Next == /\ l <= Len(Rec)
+        /\ l' = l + 1
+        /\ (Explained(Rec[l]) \/ PrintT(<<"REJECTED", l>>))
 Accepted == LET d == TLCGet("stats").diameter IN
             IF d - 1 = Len(Rec) THEN TRUE
             ELSE Print(<<"UNMATCHED", d, "x">>, FALSE)
